@@ -12,7 +12,7 @@ def run(tier, seed):
         {"prog": "page-collect", "strategy": "random", "runs": (150, 2000), "args": ["--snap", "3", "--spurious", "2", "--rate", "2"]},
         {"prog": "page-delete", "strategy": "random", "runs": (100, 1500), "args": ["--snap", "3", "--size", "60000", "65536", "--spurious", "1"]},
     ]
-    V, cov2 = concfam.run_conc("C10", tier, seed, jobs, GUARDS, mc=("MiPage", ("MiPage_mc.cfg", "MiPage_mc_thorough.cfg")), guided_progs=("page-delete",),
+    V, cov2 = concfam.run_conc("C10", tier, seed, jobs, GUARDS, step_guards=concfam.STEP_GUARDS, mc=("MiPage", ("MiPage_mc.cfg", "MiPage_mc_thorough.cfg")), guided_progs=("page-delete",),
                                V=V, finish=False)
     cov["concurrent"] = {k: cov2[k] for k in ("states", "transitions", "mc_module", "mc_config", "traces_validated_against_impl", "trace_events_validated",
                                               "schedules_generated_by_tlc", "programs", "strategies")}
